@@ -292,21 +292,24 @@ Definition follow_failed (c : case_t) (o : obs) (k : N) : bool :=
 
 Definition find_ch (l : list chobs) (k : N) : option chobs := find (fun x => N.eqb (co_key x) k) l.
 
-(* does the observation of channel k agree with specification state s ? *)
-Definition ch_matches (c : case_t) (o : obs) (k : N) (probes : list Z) (s : sstate) : bool :=
-  let live := match assoc (fst s) k with Some x => if sc_live x then Some x else None | None => None end in
-  match live, find_ch (ob_ch o) k with
+(* the live record of channel k in specification state s *)
+Definition live_ch (s : sstate) (k : N) : option sch :=
+  match assoc (fst s) k with Some x => if sc_live x then Some x else None | None => None end.
+
+(* do the whole-range reads of channel k (after reopen, and after the follow-up write)
+   agree with specification state s ? *)
+Definition full_matches (c : case_t) (o : obs) (k : N) (s : sstate) : bool :=
+  match live_ch s k, find_ch (ob_ch o) k with
   | None, Some x => chst_eqb (co_st x) CAbsent &&
                     match find_ch (ob_ch2 o) k with Some y => chst_eqb (co_st y) CAbsent | None => true end
   | None, None => true
   | Some x, Some y =>
       let vals := map (sample_value k x) (sc_data x) in
-      let nar := map (fun p => if existsb (Z.eqb p) (sc_data x) then [sample_value k x p] else []) probes in
-      chst_eqb (co_st y) COk && zl_eqb (co_full y) vals && list_eqb zl_eqb (co_nar y) nar &&
+      chst_eqb (co_st y) COk && zl_eqb (co_full y) vals &&
       match find_ch (ob_ch2 o) k with
       | None => true
       | Some z =>
-          chst_eqb (co_st z) COk && list_eqb zl_eqb (co_nar z) nar &&
+          chst_eqb (co_st z) COk &&
           match follow_stamps c o k with
           | Some fs => zl_eqb (co_full z) (vals ++ map (sample_value k x) fs)
           | None =>
@@ -320,6 +323,29 @@ Definition ch_matches (c : case_t) (o : obs) (k : N) (probes : list Z) (s : ssta
       end
   | Some _, None => false
   end.
+
+(* does the narrow read [p, p+1) number i of channel k agree with specification state s ?
+   (An absent channel has no narrow reads.) *)
+Definition nar_matches (o : obs) (k : N) (i : nat) (p : Z) (s : sstate) : bool :=
+  let want := match live_ch s k with
+              | Some x => if existsb (Z.eqb p) (sc_data x) then [sample_value k x p] else []
+              | None => []
+              end in
+  let chk (l : list chobs) :=
+    match find_ch l k with
+    | Some y => match nth_error (co_nar y) i with Some got => zl_eqb got want | None => true end
+    | None => true
+    end in
+  chk (ob_ch o) && chk (ob_ch2 o).
+
+(* channel k is consistent at this image: its whole-range reads equal one allowed state,
+   and every narrow read equals what some allowed state holds at that stamp (a crash
+   between the per-channel commits of one frame may leave a data channel one commit
+   ahead of the index channel its time lookups go through) *)
+Definition ch_consistent (c : case_t) (o : obs) (k : N) (probes : list Z) (al : list sstate) : bool :=
+  existsb (full_matches c o k) al &&
+  forallb (fun ip => existsb (nar_matches o k (fst ip) (snd ip)) al)
+          (combine (seq 0 (length probes)) probes).
 
 Definition completed (bounds : list nat) (k : nat) : nat := length (filter (fun b => (b <=? k)%nat) bounds).
 
@@ -422,7 +448,7 @@ Definition image_violations (c : case_t) (tr : list sstate) (ws : wins) (kto : n
         let i := completed (c_bounds c) k in
         let upper := if in_progress (c_bounds c) k t then S i else i in
         flat_map (fun cc =>
-            if existsb (ch_matches c o (cc_key cc) (cc_probes cc)) (allowed tr (cc_key cc) i upper)
+            if ch_consistent c o (cc_key cc) (cc_probes cc) (allowed tr (cc_key cc) i upper)
             then [] else [chan_class c ws (cc_key cc)])
           (c_chans c)
   end.
